@@ -36,7 +36,7 @@ func VH_C07_syncinfo(n int, rule int, qcSel int, tcSel int) {
 		r.Cmds.Add(&clientpb.Command{ClientID: 1, SequenceNumber: 1})
 	}
 	w := r.W
-	q := hotstuff.QuorumSize(n)
+	q := hotstuff.VQuorumRef(n)
 	gen := hotstuff.GetGenesis()
 	gqc := hotstuff.NewQuorumCert(nil, 0, gen.Hash())
 	v1 := hotstuff.View(nondetU64("v1"))
@@ -145,7 +145,7 @@ func VH_C07_syncinfo(n int, rule int, qcSel int, tcSel int) {
 func VH_C07_aggregate(n int, tcSel int, aggSel int) {
 	r := VNewReplica(n, 1, hotstuff.ID(2), vsymbolic())
 	w := r.W
-	q := hotstuff.QuorumSize(n)
+	q := hotstuff.VQuorumRef(n)
 	gen := hotstuff.GetGenesis()
 	gqc := hotstuff.NewQuorumCert(nil, 0, gen.Hash())
 	v1 := hotstuff.View(nondetU64("v1"))
